@@ -227,7 +227,7 @@ func c01One(c *vk.Ctx, prop string, e reg.Entry, idx []int, id string) uint64 {
 					fail("auto-decode-type", fmt.Sprintf("inferred %s for %s", res[0].Data.Type(), col.C.Type()))
 					return
 				}
-				ac, ok := res[0].Data.(proto.Column)
+				ac, ok := unwrapAuto(res[0].Data)
 				if ok {
 					if aw, err := reg.Wrap(ac, e.Label); err == nil && hasRow(ac) {
 						if got := rowsCanonAs(aw, fresh); got != nil && !refcol.Equal(anyList(got), anyList(want)) {
@@ -246,6 +246,16 @@ func c01One(c *vk.Ctx, prop string, e reg.Entry, idx []int, id string) uint64 {
 }
 
 func anyList(v []any) any { return v }
+
+// unwrapAuto returns the column an inferred result holds (ColAuto only delegates the
+// Column interface; the row accessors live on the column inside).
+func unwrapAuto(r proto.ColResult) (proto.Column, bool) {
+	if a, ok := r.(*proto.ColAuto); ok && a.Data != nil {
+		return a.Data, true
+	}
+	c, ok := r.(proto.Column)
+	return c, ok
+}
 
 func hasRow(c proto.Column) bool {
 	if _, ok := c.(proto.ColTuple); ok {
